@@ -455,6 +455,19 @@ func (u *Unit) rangeFact(t types.Type, term string) string {
 
 // preludeText renders sorts, datatypes and the fixed theory used by every obligation of the unit.
 func (u *Unit) preludeText() string {
+	// resolve every sort named by a spec function first, so that its datatype is declared below
+	for _, n := range sortedKeys(u.CS.SpecFuncs) {
+		sf := u.CS.SpecFuncs[n]
+		if sf.Declared {
+			continue
+		}
+		for _, p := range sf.Params {
+			u.paramSort(p)
+		}
+		for _, r := range sf.Reads {
+			u.cellSortByName(r)
+		}
+	}
 	var sb strings.Builder
 	sb.WriteString("(declare-sort Str 0)\n(declare-const str_empty Str)\n")
 	sb.WriteString("(declare-datatypes ((Slice 0)) (((mk_Slice (sl_base Int) (sl_off Int) (sl_len Int) (sl_cap Int)))))\n")
